@@ -404,15 +404,21 @@ func (table *Table) Del(primaryKey []byte) error {
 	if err != nil {
 		return err
 	}
+	pendingUpdate := false
 	if incache {
 		rowty := row.Ty
 		table.delRowCache(row)
 		if rowty == Add {
 			return nil
 		}
+		pendingUpdate = rowty == Update
 	}
 	//copy row
 	delrow := *row
+	if pendingUpdate {
+		// the index entries in the database belong to the saved row, not to the pending update being dropped
+		delrow.Data = row.old
+	}
 	delrow.Ty = Del
 	table.addRowCache(&delrow)
 	return nil
